@@ -744,3 +744,75 @@ def check_globals_merged(prog: Program, res: Result, rule: str) -> None:
             res.ok(rule, f"{m.file}:{m.node.lineno} Environment.{name}", what, "globals merged with environment globals")
         else:
             res.fail(rule, file=m.file, line=m.node.lineno, qualname=f"Environment.{name}", construct=f"{name} does not call make_globals", message="template globals bypass the environment-globals merge", what=what)
+
+
+def check_no_text_normalisation(prog: Program, res: Result, rule: str) -> None:
+    """Template text is taken as written: no Unicode normalisation or case folding of names, paths or literals anywhere in liquid2
+    (C10.R7 = C17.R13 = C20.R8). `unicodedata.normalize` at a binding site makes `assign é` (decomposed) bind a name the
+    lookup, which reads the token as written, never finds; in the lexer it makes a token's value shorter than the text it spans;
+    on a path segment it makes `a["e\\u0301"]` read another key than the one written. Expected count: zero (who-may-call rule)."""
+    probe = ast.parse("import unicodedata\nx = unicodedata.normalize('NFC', name)\ny = name.casefold()")
+    def hits(tree: ast.AST) -> list[ast.AST]:
+        out: list[ast.AST] = []
+        for n in ast.walk(tree):
+            if isinstance(n, (ast.Import, ast.ImportFrom)) and any((a.name or "").split(".")[0] == "unicodedata" for a in n.names) or (isinstance(n, ast.ImportFrom) and (n.module or "") == "unicodedata"):
+                out.append(n)
+            elif isinstance(n, ast.Call) and isinstance(n.func, ast.Attribute) and n.func.attr in ("normalize", "casefold") and (n.func.attr == "casefold" or "unicodedata" in ast.unparse(n.func.value)):
+                out.append(n)
+            elif isinstance(n, ast.Call) and isinstance(n.func, ast.Name) and n.func.id == "normalize" and n.args and isinstance(n.args[0], ast.Constant) and str(n.args[0].value).upper() in ("NFC", "NFD", "NFKC", "NFKD"):
+                out.append(n)
+        return out
+
+    if len(hits(probe)) != 3:
+        raise AnalysisError(f"{rule}: matcher self-check failed")
+    n_mod = 0
+    for mod in sorted(prog.modules.values(), key=lambda m: m.relpath):
+        n_mod += 1
+        for h in hits(mod.tree):
+            fi = prog.enclosing_function(mod, h)
+            res.fail(rule, file=mod.relpath, line=h.lineno, qualname=fi.qualname if fi else "<module>", construct=f"{mod.relpath}: Unicode normalisation / case folding ({norm(h, 50)})", message=f"`{norm(h, 60)}` normalises template text: names, path segments and literals must stay as written - a binding site that normalises and a lookup that does not disagree on the name, a normalised token value is shorter than the text it spans, and a normalised literal is not the string that was written", what="no Unicode normalisation in liquid2")
+    res.ok(rule, "liquid2/**", f"{n_mod} modules: unicodedata is not imported and nothing is case-folded", "who-may-call rule with expected count zero; matcher checked on a positive example")
+    res.floor(rule, "modules scanned for text normalisation", n_mod, 60)
+
+
+def check_no_self_stores(prog: Program, res: Result, rule: str, bases: tuple[str, ...], what_for: str, floor: int) -> None:
+    """No method other than __init__/__new__/__setstate__ of the given class families stores to an attribute of self.
+    AST nodes are shared by every render of a template (and by every call of a macro); a Template is shared by every caller of a
+    caching loader, which rebinds its global_data on a hit - anything a method memoises on the instance is read back in another
+    render, with another macro table, or with another caller's globals."""
+    n = 0
+    seen: set[str] = set()
+    for base in bases:
+        for ci in prog.subclasses(base):
+            if ci.full in seen:
+                continue
+            seen.add(ci.full)
+            for m in ci.methods.values():
+                if m.name in ("__init__", "__new__", "__setstate__", "__init_subclass__"):
+                    continue
+                n += 1
+                for st in ast.walk(m.node):
+                    tgts = st.targets if isinstance(st, ast.Assign) else ([st.target] if isinstance(st, (ast.AugAssign, ast.AnnAssign)) and getattr(st, "value", None) is not None else [])
+                    for t in tgts:
+                        for x in ast.walk(t) if isinstance(t, (ast.Tuple, ast.List)) else [t]:
+                            if isinstance(x, ast.Attribute) and isinstance(x.value, ast.Name) and x.value.id == "self" and prog.enclosing_function(m.module, st) is m:
+                                res.fail(rule, file=m.file, line=st.lineno, qualname=m.qualname, construct=f"{m.qualname} stores self.{x.attr} after construction", message=f"{m.qualname} stores `self.{x.attr}` outside the constructor: {what_for}", what=f"{ci.name}: no attribute is stored after construction")
+    res.ok(rule, "liquid2/**", f"{n} methods of {len(seen)} classes: no store to self outside construction", "assignment targets scanned (findings listed separately if any)")
+    res.floor(rule, "methods scanned for stores to self", n, floor)
+
+
+def check_env_globals_merge_shape(prog: Program, res: Result, rule: str) -> None:
+    """Environment.make_globals merges the environment's globals and the template's as they are: `{**self.globals, **globals}` (or a
+    plain copy of self.globals) - no entry is filtered out on the way (a nil-valued global that is dropped becomes an undefined)."""
+    env = prog.cls("liquid2.environment.Environment")
+    emg = env.methods.get("make_globals")
+    if emg is None:
+        raise AnalysisError("Environment.make_globals vanished")
+    rets = [r.value for r in ast.walk(emg.node) if isinstance(r, ast.Return) and r.value is not None]
+    what = "Environment.make_globals returns {**self.globals, **globals} (or a copy of self.globals): every entry of both, whatever its value"
+    merged = [r for r in rets if isinstance(r, ast.Dict) and all(k is None for k in r.keys)]
+    ok = len(merged) == 1 and [norm(v) for v in merged[0].values] == ["self.globals", "globals"] and all(isinstance(r, ast.Dict) or norm(r) == "dict(self.globals)" for r in rets)
+    if ok:
+        res.ok(rule, f"{emg.file}:{emg.node.lineno} Environment.make_globals", what, "plain merge")
+    else:
+        res.fail(rule, file=emg.file, line=emg.node.lineno, qualname="Environment.make_globals", construct=f"Environment.make_globals returns {[norm(r, 60) for r in rets]}", message="the environment/template globals are filtered or transformed while they are merged: a variable that exists in the data with value nil (or any filtered value) is missing from the scope - undefined under a strict policy although it exists", what=what)
